@@ -59,15 +59,18 @@ def random_script(rng, max_depth=6, budget=4 * MAX + 64, max_ops=24, balanced=Tr
     return ops
 
 
-def boundary_scripts():
+def boundary_scripts(tier="quick"):
     """hand-picked shapes around the places where the code splits cases"""
     L = []
-    lens = [0, 1, MAX - 2, MAX - 1, MAX, MAX + 1, MAX + 2, 2 * MAX - 1, 2 * MAX, 2 * MAX + 1, 3 * MAX, 4 * MAX, 4 * MAX + 3]
+    lens = [0, 1, MAX - 1, MAX, MAX + 1, 2 * MAX, 2 * MAX + 1]
+    if tier == "thorough":
+        lens += [MAX - 2, MAX + 2, 2 * MAX - 1, 3 * MAX, 4 * MAX, 4 * MAX + 3]
     for n in lens:
         L.append(["S", "Wn%d" % n, "E"])
         L.append(["S", "S", "Wn%d" % n, "E", "E"])
         L.append(["S", "W01", "S", "Wn%d" % n, "E", "W02", "E"])
         L.append(["Wn%d" % n])
+    L.append(["S", "W01", "S", "Wn%d" % (4 * MAX + 3), "E", "W02", "E"])
     # a chunk filled exactly by two writes, by a write and then an empty write, follow-up chunk left empty
     for a in (1, 2, 5, 100):
         L.append(["S", "Wn%d" % (MAX - a), "Wn%d" % a, "E"])
@@ -76,7 +79,7 @@ def boundary_scripts():
         L.append(["S", "Wn%d" % (MAX - a), "Wn%d" % (a + 1), "E"])
     # nested start right before / at / after the boundary of the parent
     for a in (MAX - 5, MAX - 4, MAX - 3, MAX - 1, MAX, MAX + 1, MAX + 4):
-        for b in (0, 1, 3, 4, 5, 6, MAX - 1, MAX, MAX + 1):
+        for b in ((0, 1, 3, 4, 5, 6, MAX - 1, MAX, MAX + 1) if tier == "thorough" else (0, 1, 4, 5, MAX)):
             L.append(["S", "Wn%d" % a, "S", "Wn%d" % b, "E", "W07", "E"])
             L.append(["S", "Wn%d" % a, "S", "Wn%d" % b, "S", "E", "E", "E"])
     # parent and child full at the same byte, child full first, parent full first
@@ -181,10 +184,10 @@ class LybWrite(Comp):
     slice = "lyb"
 
     def gen(self, rng, tier, scale=1.0):
-        L = ["lybw\t" + ",".join(s) for s in boundary_scripts()]
-        for _ in range(self.n(tier, 250, 12000, scale)):
+        L = ["lybw\t" + ",".join(s) for s in boundary_scripts(tier)]
+        for _ in range(self.n(tier, 150, 12000, scale)):
             L.append("lybw\t" + ",".join(random_script(rng, budget=2 * MAX + 64)))
-        for _ in range(self.n(tier, 40, 2000, scale)):
+        for _ in range(self.n(tier, 10, 2000, scale)):
             L.append("lybw\t" + ",".join(random_script(rng, budget=4 * MAX + 64, balanced=rng.random() < 0.7)))
         # small payloads only: many ops, deep
         for _ in range(self.n(tier, 300, 20000, scale)):
@@ -192,6 +195,7 @@ class LybWrite(Comp):
             if rng.random() < 0.1:
                 ops.insert(rng.randrange(len(ops) + 1), "E")
             L.append("lybw\t" + ",".join(ops))
+        rng.shuffle(L)      # spread the long cases over the shards
         return L
 
 
@@ -203,13 +207,14 @@ class LybRoundTrip(Comp):
     slice = "lyb"
 
     def gen(self, rng, tier, scale=1.0):
-        L = ["lybrt\t" + ",".join(s) for s in boundary_scripts()]
-        for _ in range(self.n(tier, 250, 12000, scale)):
+        L = ["lybrt\t" + ",".join(s) for s in boundary_scripts(tier)]
+        for _ in range(self.n(tier, 150, 12000, scale)):
             L.append("lybrt\t" + ",".join(random_script(rng, budget=2 * MAX + 64)))
-        for _ in range(self.n(tier, 40, 2000, scale)):
+        for _ in range(self.n(tier, 10, 2000, scale)):
             L.append("lybrt\t" + ",".join(random_script(rng, budget=4 * MAX + 64)))
         for _ in range(self.n(tier, 300, 20000, scale)):
             L.append("lybrt\t" + ",".join(random_script(rng, max_depth=8, budget=400, max_ops=40)))
+        rng.shuffle(L)
         return L
 
     def witness(self, line, model_out, impl_out):
@@ -240,8 +245,10 @@ class LybRead(Comp):
 
     def gen(self, rng, tier, scale=1.0):
         L = []
-        scripts = [s for s in boundary_scripts() if sum(len(py_payload(o)) for o in s if o[0] == "W") <= 2 * MAX + 8]
-        for _ in range(self.n(tier, 120, 6000, scale)):
+        scripts = [s for s in boundary_scripts(tier) if sum(len(py_payload(o)) for o in s if o and o[0] == "W") <= 2 * MAX + 8]
+        if tier != "thorough":
+            scripts = scripts[::2]
+        for _ in range(self.n(tier, 60, 6000, scale)):
             scripts.append(random_script(rng, budget=MAX + 600, balanced=rng.random() < 0.9))
         for _ in range(self.n(tier, 400, 20000, scale)):
             scripts.append(random_script(rng, max_depth=6, budget=300, max_ops=30, balanced=rng.random() < 0.9))
@@ -275,6 +282,7 @@ class LybRead(Comp):
                 else:
                     s2.insert(rng.randrange(len(s2) + 1), rng.choice(["S", "E", "R0", "R1", "R4"]))
                 L.append("lybr\t%s\t%s" % (",".join(s2), hexs(bytes(d))))
+        rng.shuffle(L)
         return L
 
 
@@ -285,8 +293,12 @@ IDCH = "abcdefghijklmnopqrstuvwxyzABCDEFGHIJKLMNOPQRSTUVWXYZ0123456789_-."
 
 
 def ident(rng, maxlen=10):
-    n = rng.randrange(1, maxlen)
-    return rng.choice(IDCH[:53]) + "".join(rng.choice(IDCH) for _ in range(n - 1)) if n > 1 else rng.choice(IDCH[:52])
+    """YANG identifier (not starting with xml)"""
+    while True:
+        n = rng.randrange(1, maxlen)
+        s = rng.choice(IDCH[:52] + "_") + "".join(rng.choice(IDCH) for _ in range(n - 1))
+        if not s.lower().startswith("xml"):
+            return s
 
 
 def _mix(h, b):
